@@ -4,7 +4,8 @@
    Write/doWrite, Read, Stat, SetVersion, PullTract/pullTractOnce, maybeGCTract, GCTracts "gone" path)
    and check_tracts_loop.go (Check), plus manager.go's openFiles counter.
    One step per Disk call or map access; an error oracle may fail ANY Disk call.
-   A [variant] selects, branch by branch, the code as it is or as repaired by fixes/F3, F4, F20.
+   A [variant] selects, branch by branch, the repaired code (= the current tree since the fix commits
+   debdde2, d92e32e, daaaf4c) or the code before those fixes.
    Definitions only; proofs live in Proofs.v. *)
 From Coq Require Import List ZArith Bool.
 From BLB Require Import Gen.Consts.
@@ -12,9 +13,13 @@ Import ListNotations.
 Open Scope Z_scope.
 
 (* ---------- which tree ---------- *)
-Record variant := { fixF3 : bool; fixF20 : bool; fixF4 : bool }.
-Definition repaired : variant := {| fixF3 := true; fixF20 := true; fixF4 := true |}.
-Definition current_tree : variant := {| fixF3 := false; fixF20 := false; fixF4 := false |}.
+Record variant := { fixF3 : bool; fixF22 : bool; fixF4 : bool }.
+Definition repaired : variant := {| fixF3 := true; fixF22 := true; fixF4 := true |}.
+(* the code before the fix commits debdde2 (F3), d92e32e (F4), daaaf4c (F22); kept for the REFUTED statements
+   and so that a regression is recognised as exactly that defect *)
+Definition unrepaired : variant := {| fixF3 := false; fixF22 := false; fixF4 := false |}.
+(* /repo as it is now *)
+Definition current_tree : variant := repaired.
 
 (* ---------- association lists keyed by Z ---------- *)
 Fixpoint get {A} (k : Z) (l : list (Z * A)) : option A :=
@@ -28,7 +33,7 @@ Inductive mode := MW | MLW | MR.     (* WRITE, LONG_WRITE, READ *)
 
 (* the value the code compares the state with to recognise a long writer:
    `state != LONG_WRITE` compares with the MODE constant (1), not with the long-writer STATE (-2) *)
-Definition long_marker (V : variant) : Z := if fixF20 V then -2 else c18_LONG_WRITE.
+Definition long_marker (V : variant) : Z := if fixF22 V then -2 else c18_LONG_WRITE.
 
 Definition mode_state (m : mode) : Z := match m with MW => -1 | MLW => -2 | MR => 1 end.
 
@@ -600,9 +605,9 @@ Definition cstate0 : cstate := {| c_sys := (g0, []); c_mgr := 0 |}.
 (* the variants tried, in order, with the verdict code reported when only that variant explains the line *)
 Definition variants : list (variant * Z) :=
   [ (repaired, 1);
-    ({| fixF3 := false; fixF20 := true; fixF4 := true |}, 3);
-    ({| fixF3 := true; fixF20 := false; fixF4 := true |}, 20);
-    ({| fixF3 := false; fixF20 := false; fixF4 := true |}, 23) ].
+    ({| fixF3 := false; fixF22 := true; fixF4 := true |}, 3);
+    ({| fixF3 := true; fixF22 := false; fixF4 := true |}, 20);
+    ({| fixF3 := false; fixF22 := false; fixF4 := true |}, 23) ].
 
 Fixpoint first_match (obs : list Z) (nthreads : nat) (cands : list (sys * Z)) : option (sys * Z) :=
   match cands with
@@ -652,7 +657,7 @@ Definition step_line (c : cstate) (op : list Z) : cstate * list Z :=
       (c, if list_eqb exp obs then [777; 1] else (-2) :: exp)
   | [30; req; ok; openfiles] =>
       let nf := mgr_step repaired (c_mgr c) req in
-      let nb := mgr_step current_tree (c_mgr c) req in
+      let nb := mgr_step unrepaired (c_mgr c) req in
       let okexp := if (req =? 2) || (req =? 5) then 0 else 1 in
       if negb (ok =? okexp) then (c, [(-2); okexp; nf])
       else if nf =? openfiles then ({| c_sys := c_sys c; c_mgr := nf |}, [777; 1])
